@@ -744,6 +744,28 @@ func stableRound(dir string, g int, emit func(map[string]interface{})) error {
 		deliver(i, 1)
 	}
 	time.Sleep(300 * time.Millisecond)
+	// the background goroutine publishes its packets after it has been through all its blocks: wait (5 s at most, however
+	// loaded the machine is) until as many packets are out as stored blocks of fork B carry this node's confirm
+	for t := 0; t < 250; t++ {
+		signed := 0
+		for i := la; i < la+lb-1; i++ {
+			if b, err := n.DB.GetBlockByHash(blocks[i].Hash()); err == nil {
+				rs, _ := w.Signers(b)
+				for _, q := range rs {
+					if q+1 == self {
+						signed++
+					}
+				}
+			}
+		}
+		emu.Lock()
+		out := len(published)
+		emu.Unlock()
+		if out >= signed {
+			break
+		}
+		time.Sleep(20 * time.Millisecond)
+	}
 	consensus.VerifEngineHook = nil
 	emu.Lock()
 	pub := append([]*network.BlockConfirmData(nil), published...)
